@@ -67,9 +67,9 @@ func disassemble(b *bytecode, buf *bytes.Buffer) {
 
 		case OP_OBJ_LOAD:
 			off := i - 1
-			sz, w := b.readMediumInt(i)
+			name, w := b.readConst(i)
 			i += w
-			fmt.Fprintf(buf, "[%d] %s %d\n", off, op, sz)
+			fmt.Fprintf(buf, "[%d] %s %v\n", off, op, name)
 
 		case OP_CALL_BY_VALUE:
 			fallthrough
